@@ -174,6 +174,13 @@ def main():
         seen.add(key)
         print("KNOWN-FINDING: property=%s %s [%s in %s]" % (prop, k["what"], f["name"], f["harness"]))
 
+    # structural obligations carry the modular decomposition, not the property: if nothing but
+    # them failed, the decomposition no longer matches the code -> undecided, never an alarm
+    semantic_failed = [f for f in new_failed if not f.get("structural")]
+    if new_failed and not semantic_failed:
+        for n in sorted(set("%s[%s]" % (f["name"], f["harness"]) for f in new_failed))[:20]:
+            undecided.append("structural obligation failed (modular decomposition does not match the code any more; no semantic obligation failed): " + n)
+        new_failed = []
     wall = round(time.time() - t0, 2)
     n_obl = len(obligations)
     n_dis = sum(1 for o in obligations if o["status"] in ("SUCCESS", "UNREACHABLE", "VERIFIED"))
